@@ -124,8 +124,6 @@ func (r *RibEntry) updateNexthopsEnc() {
 		return
 	}
 
-	FibStrategyTable.ClearNextHopsEnc(r.Name)
-
 	// All routes including parents if needed
 	routes := append([]*Route{}, r.routes...)
 
@@ -155,10 +153,9 @@ func (r *RibEntry) updateNexthopsEnc() {
 		}
 	}
 
-	// Add "flattened" set of nexthops
-	for nexthop, cost := range minCostRoutes {
-		FibStrategyTable.InsertNextHopEnc(r.Name, nexthop, cost)
-	}
+	// Replace the nexthops of the FIB entry with the "flattened" set in one step,
+	// so that concurrent lookups never observe a cleared or partially filled entry
+	FibStrategyTable.ReplaceNextHopsEnc(r.Name, minCostRoutes)
 
 	// Trigger update for all children for inheritance
 	for child := range r.children {
